@@ -130,6 +130,13 @@ def cases(tier):
         for which in ("a", "c"):
             for val in ("below", "above", "-0.1", "10", "nan"):
                 out.append({"t": "trunc-out", "fam": fam, "which": which, "val": val})
+    # parameters passed as Python ints / numpy integers (every integer point of each rectangle)
+    for fam, pts in (("Family323Plus", [(a, c) for a in (1, 2, 3) for c in (1, 2, 3)]), ("Family423", [(1, 2), (1, 3), (2, 2), (2, 3)]), ("Family523", [(1, 3)])):
+        for a, c in pts:
+            for kind in ("int", "np.int64"):
+                out.append({"t": "trunc", "fam": fam, "ia": a, "ic": c, "ptype": kind, "i": -1, "j": -1, "g": 1})
+    for k in (0, 64):
+        out.append({"t": "trtet", "k": k, "ptype": "int"})
     for k in range(0, 65):
         out.append({"t": "trtet", "k": k})
     for val in (-0.1, -1e-9, 1 + 1e-9, 10.0):
@@ -167,17 +174,26 @@ def run_case(case):
     if t in ("trunc", "trtet"):
         if t == "trunc":
             fam = case["fam"]
-            a, c = param(fam, case["i"], case["j"], case["g"])
+            if "ptype" in case:
+                a, c = float(case["ia"]), float(case["ic"])
+                conv = int if case["ptype"] == "int" else np.int64
+                ai, ci = conv(case["ia"]), conv(case["ic"])
+            else:
+                a, c = param(fam, case["i"], case["j"], case["g"])
+                ai, ci = a, c
             if "da" in case:
                 a = min(max(a + case["da"], FAMS[fam]["a"][0]), FAMS[fam]["a"][1])
                 c = min(max(c + case["dc"], FAMS[fam]["c"][0]), FAMS[fam]["c"][1])
-            call = lambda: getattr(FAM, fam).get_shape(a, c)  # noqa: E731
-            corner = (case["i"] // case["g"], case["j"] // case["g"]) if ("da" not in case and case["i"] in (0, case["g"]) and case["j"] in (0, case["g"])) else None
+            if "da" in case:
+                ai, ci = a, c
+            call = lambda: getattr(FAM, fam).get_shape(ai, ci)  # noqa: E731
+            corner = (case["i"] // case["g"], case["j"] // case["g"]) if ("da" not in case and "ptype" not in case and case["i"] in (0, case["g"]) and case["j"] in (0, case["g"])) else None
         else:
             fam = "Family323Plus"
             tr = case["k"] / 64.0
             a, c = 1.0, 3.0 - 2.0 * tr
-            call = lambda: FAM.TruncatedTetrahedronFamily.get_shape(tr)  # noqa: E731
+            tri = int(tr) if case.get("ptype") == "int" else tr
+            call = lambda: FAM.TruncatedTetrahedronFamily.get_shape(tri)  # noqa: E731
             corner = None
         F = FAMS[fam]
         ref = enumerate_vertices(F["planes"](), {0: a, 1: F["b"], 2: c})
